@@ -822,6 +822,19 @@ type ownSite struct {
 	detail    string
 }
 
+// inPlaceOnBorrowed: the site was justified by a guard on a value the function
+// does not own (it really mutates a caller's value), or is audited/undecided.
+func (s ownSite) inPlaceOnBorrowed() bool {
+	if s.rule == "MUT.view" {
+		return false
+	}
+	if s.verdict != Proved {
+		return true
+	}
+	return strings.Contains(s.detail, "the path established") || strings.Contains(s.detail, "internal node of a value whose type") ||
+		strings.Contains(s.detail, "shown to be unsealed") || strings.Contains(s.detail, "shown unsealed")
+}
+
 func (c *Ctx) ownSites(u FuncUnit) []ownSite {
 	a := newOwnAnalysis(c, u)
 	info := a.info
@@ -862,6 +875,9 @@ func (c *Ctx) ownSites(u FuncUnit) []ownSite {
 		if ok, why := facts.safe(a.resolvedKey(x, 0)); ok {
 			return true, why
 		}
+		if a.cowIdiom(x, n) {
+			return true, "the path established that the value is not sealed (copy-on-write: `if x.sealed { x = <fresh copy> }` precedes the write)"
+		}
 		return false, ""
 	}
 	sliceOK := func(s ast.Expr, n ast.Node, stack []ast.Node, needClamp bool) (bool, string) {
@@ -886,7 +902,16 @@ func (c *Ctx) ownSites(u FuncUnit) []ownSite {
 				return false, "cells of " + types.ExprString(x) + " are borrowed and nothing on the path shows the value is unsealed or of a never-sealed type"
 			}
 		}
-		return true, "cells belong to values this function owns or has shown to be unsealed / never-sealed"
+		guarded := false
+		for _, x := range p.owners {
+			if k := a.lvalKind(x, 0); k != ownFresh && k != ownArgs {
+				guarded = true
+			}
+		}
+		if guarded {
+			return true, "cells of a borrowed value shown to be unsealed / never-sealed on this path"
+		}
+		return true, "cells belong to values this function owns"
 	}
 	var stack []ast.Node
 	ast.Inspect(u.Decl.Body, func(n ast.Node) bool {
@@ -1023,6 +1048,30 @@ func (c *Ctx) ownSites(u FuncUnit) []ownSite {
 								}
 							}
 						}
+					}
+					// sort.Stable(adapter) where adapter := &T{cells: S}
+					if o := identObj(info, arg); o != nil && sl == nil {
+						ast.Inspect(u.Decl.Body, func(m ast.Node) bool {
+							as, ok := m.(*ast.AssignStmt)
+							if !ok || len(as.Lhs) != len(as.Rhs) {
+								return true
+							}
+							for i, l := range as.Lhs {
+								if identObj(info, l) != o {
+									continue
+								}
+								if ue, ok := ast.Unparen(as.Rhs[i]).(*ast.UnaryExpr); ok && ue.Op == token.AND {
+									if cl, ok := ue.X.(*ast.CompositeLit); ok {
+										for _, el := range cl.Elts {
+											if kv, ok := el.(*ast.KeyValueExpr); ok && isCellSlice(kv.Value) {
+												sl = kv.Value
+											}
+										}
+									}
+								}
+							}
+							return true
+						})
 					}
 					if sl == nil {
 						continue
@@ -1185,4 +1234,80 @@ func isSortSwap(u FuncUnit) bool {
 		has[n.Method(i).Name()] = true
 	}
 	return has["Len"] && has["Less"]
+}
+
+// cowIdiom recognises the repository's copy-on-write shape for a local x:
+//
+//	if x.sealed { cp := &LVal{}; ...; x = cp }
+//	... write through x ...
+//
+// After the if statement x is either the fresh copy or was not sealed.  The if
+// must have no else, must precede the site in an enclosing block, its last
+// statement assigning x must assign a fresh value, and x must not be assigned
+// between the end of the if and the site.
+func (a *ownAnalysis) cowIdiom(x ast.Expr, site ast.Node) bool {
+	o := identObj(a.info, x)
+	if o == nil {
+		return false
+	}
+	sealedFld := a.c.LookupField("lisp.LVal.sealed")
+	isSealedM := a.c.LookupMethod("lisp.LVal.IsSealed")
+	found := false
+	ast.Inspect(a.u.Decl.Body, func(n ast.Node) bool {
+		blk, ok := n.(*ast.BlockStmt)
+		if !ok || blk.Pos() > site.Pos() || blk.End() < site.End() {
+			return true
+		}
+		for _, st := range blk.List {
+			is, ok := st.(*ast.IfStmt)
+			if !ok || is.Else != nil || is.End() > site.Pos() {
+				continue
+			}
+			condOK := false
+			switch c := ast.Unparen(is.Cond).(type) {
+			case *ast.SelectorExpr:
+				condOK = FieldOfSelector(a.info, c) == sealedFld && identObj(a.info, c.X) == o
+			case *ast.CallExpr:
+				if originOf(Callee(a.info, c)) == isSealedM {
+					if se, ok := ast.Unparen(c.Fun).(*ast.SelectorExpr); ok {
+						condOK = identObj(a.info, se.X) == o
+					}
+				}
+			}
+			if !condOK {
+				continue
+			}
+			// last assignment to x inside the body is fresh
+			var lastRHS ast.Expr
+			for _, bs := range is.Body.List {
+				if as, ok := bs.(*ast.AssignStmt); ok && len(as.Lhs) == len(as.Rhs) {
+					for i, l := range as.Lhs {
+						if identObj(a.info, l) == o {
+							lastRHS = as.Rhs[i]
+						}
+					}
+				}
+			}
+			if lastRHS == nil || a.lvalKind(lastRHS, 0) != ownFresh {
+				continue
+			}
+			// no assignment to x between the if and the site
+			clean := true
+			ast.Inspect(a.u.Decl.Body, func(m ast.Node) bool {
+				if as, ok := m.(*ast.AssignStmt); ok && as.Pos() > is.End() && as.End() <= site.Pos() {
+					for _, l := range as.Lhs {
+						if identObj(a.info, l) == o {
+							clean = false
+						}
+					}
+				}
+				return true
+			})
+			if clean {
+				found = true
+			}
+		}
+		return true
+	})
+	return found
 }
